@@ -175,7 +175,7 @@ static int do_getput(const char *api, int isput, int ncid, int varid, int isrec,
         memset(tbuf, 'a', sizeof tbuf);
         return isput ? ncmpi_put_vara_text_all(ncid, vid, st, ct, tbuf) : ncmpi_get_vara_text_all(ncid, vid, st, ct, tbuf);
     }
-    if ((in->cls == 'E' && !strcmp(in->kind, "einval")) || (in->cls == 'D' && !strcmp(in->kind, "iomis"))) {
+    if (!strcmp(form, "vara") && ((in->cls == 'E' && !strcmp(in->kind, "einval")) || (in->cls == 'D' && !strcmp(in->kind, "iomis")))) {
         /* flexible API: NC_COUNT_IGNORE with a derived type -> NC_EINVAL (dispatcher);
            bufcount*buftype != request size -> NC_EIOMISMATCH (driver) */
         MPI_Datatype dt; int rc;
